@@ -53,6 +53,19 @@ pub struct DCaps {
 #[derive(Default)]
 pub struct DApp;
 
+/// headers grouped by name in first-appearance order; a repeated name carries all its values, in order
+fn grouped(headers: &[(String, String)]) -> Vec<(String, Vec<crux_http::http::headers::HeaderValue>)> {
+    let mut out: Vec<(String, Vec<crux_http::http::headers::HeaderValue>)> = vec![];
+    for (n, v) in headers {
+        let Ok(hv) = v.parse::<crux_http::http::headers::HeaderValue>() else { continue };
+        match out.iter_mut().find(|g| g.0 == *n) {
+            Some(g) => g.1.push(hv),
+            None => out.push((n.clone(), vec![hv])),
+        }
+    }
+    out
+}
+
 fn http_text(r: crux_http::Result<crux_http::Response<Vec<u8>>>) -> String {
     match r {
         Ok(mut resp) => {
@@ -83,16 +96,16 @@ impl crux_core::App for DApp {
                 use crux_http::command::Http;
                 let url = format!("https://det.test/r/{id}");
                 let mut b = if post { Http::<Effect, DEvent>::post(&url).body_string(format!("body {id}")) } else { Http::<Effect, DEvent>::get(&url) };
-                for (n, v) in &headers {
-                    b = b.header(n.as_str(), v.as_str());
+                for (n, vs) in grouped(&headers) {
+                    b = b.header(n.as_str(), &vs[..]);
                 }
                 b.build().then_send(move |r| DEvent::Got { id, text: http_text(r) })
             }
             DEvent::Http { id, api: DApi::Legacy, headers, post } => {
                 let url = format!("https://det.test/r/{id}");
                 let mut b = if post { caps.http.post(&url).body_string(format!("body {id}")) } else { caps.http.get(&url) };
-                for (n, v) in &headers {
-                    b = b.header(n.as_str(), v.as_str());
+                for (n, vs) in grouped(&headers) {
+                    b = b.header(n.as_str(), &vs[..]);
                 }
                 b.send(move |r| DEvent::Got { id, text: http_text(r) });
                 Command::done()
@@ -348,6 +361,19 @@ impl Check for C11Check {
                 0..=3 => {
                     let nh = rng.below(9) as usize;
                     let mut headers = gen_header_set(rng, nh);
+                    if rng.chance(1, 5) {
+                        // many header lines, one name carrying several values (order of the values
+                        // of a repeated header is part of what the app specified)
+                        let extra = rng.range(25, 60);
+                        for k in 0..extra {
+                            headers.push((format!("x-many-{k}"), format!("m{}", rng.below(100))));
+                        }
+                        let rep = rng.range(2, 6);
+                        for k in 0..rep {
+                            headers.push(("accept".to_string(), format!("type/{k}")));
+                        }
+                        rng.shuffle(&mut headers[..]);
+                    }
                     if rng.chance(1, 4) && !headers.is_empty() {
                         // repeated name
                         let h = headers[0].clone();
